@@ -28,6 +28,8 @@ CHECKS = {
          "proof", "Equivalence contracts for Not/And/Or/Xor/Implies/IfThenElse over raw, single-assertion, multi-assertion and nested operands; optional constraints compared with their mandatory twin (Implies(applied, phi)); ForceApplyN count; ConstraintFromExpression", "4/C10"),
  "C18": ("contract-based deductive verification: raises_iff obligations over symbolic parameters, acceptance predicate read from the real pydantic field declarations",
          "proof", "For each constructor the listed ill-formedness conditions are proved to raise on every path and every well-formed input to be accepted (an unannounced exception on any path of any contract fails an obligation)", "4/C18"),
+ "C08": ("contract-based deductive verification: `equals` contract per indicator (indicator variable = definition on the schedule) over what initialize() asserts, z3",
+         "proof", "Equality contracts for utilisation, number of tasks assigned, resource cost (constant/linear/quadratic), idle time, tardiness, earliness, number tardy, maximum lateness, flow time, weighted completion/start, smallest/greatest start, user expressions, targets and bounds; task/busy-interval counts are bounded shapes, horizons for the utilisation quotient are taken from a list", "4/C08"),
 }
 NOT_YET = {}
 
